@@ -17,11 +17,14 @@ def main():
     if "own_pass_data_json" in obj:
         tmp = tempfile.mkdtemp(prefix="awc01-replay-")
         try:
-            fails = c01.own_pass(obj["backend"], tmp, 0, [json.loads(obj["own_pass_data_json"])])
+            from . import edgevals
+            data = (edgevals.untag(obj["own_pass_data_classes"]) if obj.get("own_pass_data_classes") is not None
+                    else json.loads(obj["own_pass_data_json"]))
+            fails = c01.own_pass(obj["backend"], tmp, 0, [data])
         finally:
             shutil.rmtree(tmp, ignore_errors=True)
         print(f"backend {obj['backend']}, mutate-and-reread pass on data {obj['own_pass_data_json'][:300]}, repo {common.REPO}")
-        for what, text, _ in fails:
+        for what, text, *_ in fails:
             print("FAILS:", text)
         if not fails:
             print("property holds on this input")
